@@ -701,7 +701,10 @@ class Gen(object):
         if r < 0.8:
             self.kind('import')
             m = self.rng.choice(MODS)
-            return self.rng.choice(['import %s' % m, 'import %s as %s' % (m, self.name()), 'from %s import %s' % (m, self.name())])
+            m2 = self.rng.choice(MODS)
+            return self.rng.choice(['import %s' % m, 'import %s as %s' % (m, self.name()), 'from %s import %s' % (m, self.name()),
+                                    'import %s, %s as %s' % (m, m2, self.name()),
+                                    'from %s import %s, %s as %s' % (m, self.name(), self.name(), self.name())])
         if r < 0.85:
             return 'pass'
         if r < 0.9 and in_func:
@@ -816,6 +819,17 @@ def kw_star_walrus(tree):
     return False
 
 
+def kw_before_star(tree):
+    """a call with a keyword argument written before a starred argument: text order and AST order of the
+    arguments differ, ast.unparse swaps them (open finding F74 for completion at the end of the value)"""
+    for n in ast.walk(tree):
+        if isinstance(n, ast.Call) and n.keywords:
+            stars = [a for a in n.args if isinstance(a, ast.Starred)]
+            if stars and min((k.value.lineno, k.value.col_offset) for k in n.keywords) < max((a.lineno, a.col_offset) for a in stars):
+                return True
+    return False
+
+
 def gen_program(rng, size=None, allow_kw_star_walrus=False):
     """(source, construct histogram); programs that do not parse or that contain the
     kw-before-star-with-walrus construct (open finding of C13) are regenerated"""
@@ -883,6 +897,10 @@ class _Relayout(ast._Unparser):
             sep, self._join = self._join, None
             self.write(sep + text)
             return
+        for kw in ('def ', 'class ', 'async def '):
+            if text.startswith(kw) and self.rng.random() < self.p_split * 0.6:     # `def \` newline `f():`
+                text = kw[:-1] + self._cont() + text[len(kw):]
+                break
         self.maybe_newline()
         if self._source and self.rng.random() < self.p_blank:
             k = self.rng.random()
@@ -891,6 +909,30 @@ class _Relayout(ast._Unparser):
             else:
                 self.write(' ' * self.rng.randint(0, 6) + '# c%d\n' % self.rng.randint(0, 9))
         self.write(' ' * (self.width * self._indent) + text)
+
+    def _cont(self):
+        return ' \\\n' + ' ' * self.rng.choice([0, 0, 1, 4, 9])
+
+    def visit_Import(self, node):
+        if self.rng.random() >= self.p_split:
+            return super().visit_Import(node)
+        self.fill('import ')
+        for i, a in enumerate(node.names):
+            if i:
+                self.write(',' + (self._cont() if self.rng.random() < 0.7 else ' '))
+            self.write(a.name)
+            if a.asname:
+                self.write((self._cont() if self.rng.random() < 0.3 else ' ') + 'as' +
+                           (self._cont() if self.rng.random() < 0.5 else ' ') + a.asname)
+
+    def visit_ImportFrom(self, node):
+        if self.rng.random() >= self.p_split or any(a.name == '*' for a in node.names):
+            return super().visit_ImportFrom(node)
+        self.fill('from ' + '.' * (node.level or 0) + (node.module or '') + ' import (')
+        for i, a in enumerate(node.names):
+            self.write('\n' + ' ' * self.rng.choice([0, 0, 2, 8]) if self.rng.random() < 0.7 else ('' if i == 0 else ' '))
+            self.write(a.name + ((' as ' + a.asname) if a.asname else '') + (',' if i < len(node.names) - 1 else ''))
+        self.write('\n)' if self.rng.random() < 0.5 else ')')
 
     def traverse(self, node):
         if isinstance(node, list) and node and all(isinstance(s, ast.stmt) for s in node):
